@@ -195,6 +195,11 @@ def step (st : MState) (line : String) : MState × String :=
     let bytes := writtenFile st.dlt st.ws
     ({ st with writing := false, file := some bytes },
      s!"close size={bytes.length} fnv={fnv bytes} snaplen={writerSnaplen} linktype={dltToLinktype st.dlt}")
+  | ["rotate"] =>
+    if !st.writing then (st, "rotate nowriter") else
+    let bytes := writtenFile st.dlt st.ws
+    ({ st with writing := false, file := some bytes },
+     s!"rotate size={bytes.length} fnv={fnv bytes} snaplen={writerSnaplen} linktype={dltToLinktype st.dlt} leak=0")
   | ["chop", k] =>
     match st.file, k.toNat? with
     | some bytes, some k =>
@@ -383,8 +388,11 @@ def specStep (st : OState) (line : String) : OState × String :=
           if ow == ["w", "ok"] then ({ st with frames := st.frames ++ [⟨s, u, a⟩] }, "ok")
           else ({ st with unspecified := true }, s!"violates write {" ".intercalate ow}")
       | _, _, _ => ({ st with unspecified := true }, "unspecified")
-    | ["close"] =>
+    | [closeOp] =>
+      if closeOp != "close" && closeOp != "rotate" then (st, "unspecified") else
       if st.unspecified then (st, "unspecified") else
+      if closeOp == "rotate" && kvOf ow "leak" != some "0" then
+        ({ st with unspecified := true }, "violates writer-reassign-leak") else
       let want := 24 + (st.frames.map (fun f => 16 + f.ann.ser.length)).sum
       let st' := { st with size := want, closed := true }
       match (kvOf ow "size").bind (·.toNat?), (kvOf ow "snaplen").bind (·.toNat?), (kvOf ow "linktype").bind (·.toNat?) with
